@@ -332,6 +332,20 @@ func c20r3(c *core.Ctx) {
 		}
 	})
 	c.Check(viaMap, "hash-of-sorted-encoding", f.Pos(), "the hash input is encoding/json's (key-sorted) encoding of the decoded map", "the hash input is not the re-encoded map")
+	// numbers survive the detour through the generic map: encoding/json decodes a number into interface{} as float64 unless the
+	// decoder was told UseNumber. Accessory ids are uint64 (an EUI-64 of a bridged device, say) and integer limits are ints: two
+	// structures that differ in such a number above 2^53 have the same hash, and the configuration number does not move
+	exact, viaUnmarshal := false, false
+	core.Instrs(f, func(i ssa.Instruction) {
+		if core.IsCall(i, "encoding/json.Unmarshal") {
+			viaUnmarshal = true
+		}
+		if core.IsCall(i, "(*encoding/json.Decoder).UseNumber") {
+			exact = true
+		}
+	})
+	c.Check(exact && !viaUnmarshal, "hash-numbers-exact@"+fname(f), f.Pos(), "the structure is decoded with UseNumber: numbers enter the hash as they are written",
+		"the structure is decoded into a generic map without UseNumber: every number becomes a float64, ids and limits above 2^53 that differ in the low bits collapse — a changed accessory id (an EUI-64 used as aid) leaves the configuration number where it was")
 }
 
 func c20r4(c *core.Ctx) {
